@@ -125,7 +125,11 @@ func (c *NoiseConn) Read(b []byte) (n int, err error) {
 	// maintain an intermediate read buffer. If this buffer becomes
 	// depleted, then we read the next record, and feed it into the
 	// buffer. Otherwise, we read directly from the buffer.
-	if c.readBuf.Len() == 0 {
+	//
+	// NOTE: a record may be empty (the peer wrote zero bytes). Reading from
+	// the still empty buffer would then report io.EOF although the
+	// connection is perfectly alive, so we keep reading until we have data.
+	for c.readBuf.Len() == 0 {
 		plaintext, err := c.noise.ReadMessage(c.conn)
 		if err != nil {
 			return 0, err
